@@ -2,6 +2,7 @@ package main
 
 import (
 	"encoding/json"
+	"errors"
 	"fmt"
 	"github.com/mmcloughlin/avo/build"
 	"math"
@@ -311,6 +312,7 @@ func builderSections(c *Ctx, rng *RNG) {
 		var want []*sec
 		var cur *sec
 		var desc []string
+		wantErrs := 0
 		for j := 0; j < 2+rng.Intn(6); j++ {
 			switch rng.Intn(5) {
 			case 0:
@@ -337,8 +339,27 @@ func builderSections(c *Ctx, rng *RNG) {
 					cur.data = append(cur.data, [2]int{off, 4})
 					ctx.AppendDatum(operand.U32(7))
 					desc = append(desc, "AppendDatum(U32)")
+				} else if len(cur.data) > 0 && rng.Chance(35) {
+					// a constant that starts inside an earlier one (and may run past the end of the section): refused,
+					// the section stays as it is
+					d := cur.data[rng.Intn(len(cur.data))]
+					off := d[0] + rng.Intn(d[1])
+					if rng.Bool() && off > 0 {
+						off = d[0] - 4 + rng.Intn(4) + 1 // or ends inside it
+						if off < 0 {
+							off = d[0]
+						}
+					}
+					ctx.AddDatum(off, operand.U64(11))
+					wantErrs++
+					desc = append(desc, fmt.Sprintf("AddDatum(%d, U64) overlapping [%d,%d)", off, d[0], d[0]+d[1]))
 				} else {
 					off := 64 + 8*len(cur.data)
+					for _, d := range cur.data {
+						if d[0]+d[1] > off {
+							off = (d[0] + d[1] + 7) / 8 * 8
+						}
+					}
 					cur.data = append(cur.data, [2]int{off, 8})
 					ctx.AddDatum(off, operand.U64(9))
 					desc = append(desc, fmt.Sprintf("AddDatum(%d, U64)", off))
@@ -347,6 +368,14 @@ func builderSections(c *Ctx, rng *RNG) {
 		}
 		f, err := ctx.Result()
 		idx := o.AddCase(Case{Key: "data:builder-sections", Desc: strings.Join(desc, "; "), Input: map[string]any{"calls": desc}, Nontrivial: len(want) >= 2})
+		if wantErrs > 0 {
+			var el build.ErrorList
+			if !errors.As(err, &el) || len(el) != wantErrs {
+				o.Plan.GoViolations = append(o.Plan.GoViolations, GoViolation{Key: "data:builder-sections:overlap-accepted", Desc: fmt.Sprintf("case %d: %d overlapping constants were requested but the builder reports %v: %s", idx, wantErrs, err, strings.Join(desc, "; ")), Replay: map[string]any{"calls": desc}})
+				continue
+			}
+			err = nil
+		}
 		if err != nil {
 			o.Plan.GoViolations = append(o.Plan.GoViolations, GoViolation{Key: "data:builder-sections:error", Desc: fmt.Sprintf("case %d: valid data requests give an error: %v (%s)", idx, err, strings.Join(desc, "; ")), Replay: map[string]any{"calls": desc}})
 			continue
